@@ -100,7 +100,7 @@ class Bench:
             s._journaler.set_seq_num(s._session, next_num_in=2)
         except Exception:
             self.fresh()
-        if obs["dispatched"] != frames or obs["buffer"] or obs["state"] != ConnectionState.ACTIVE or s._test_req_id:
+        if obs["dispatched"] != frames or obs["buffer"] or s._msg_buffer or obs["state"] != ConnectionState.ACTIVE or s._test_req_id:
             self.fresh()
         else:
             self.reset()
@@ -176,7 +176,9 @@ def judge(acc, bench, name, frames, cuts, garbage=None):
             acc.violation(f"C03:on_message-mismatch/{kind}", f"on_message saw {len(obs['app'])} messages, expected {len(exp_app)}", case)
         if obs["journal"] != frames:
             acc.violation(f"C03:journal-mismatch/{kind}", f"inbound journal holds {len(obs['journal'])} frames, expected {len(frames)} byte-identical", case)
-        if obs["buffer"]:
+        keep_ok = {MARKER[:k] for k in range(1, len(MARKER)) if data.endswith(MARKER[:k])}
+        if obs["buffer"] and obs["buffer"] not in keep_ok:
+            # (a trailing proper prefix of the marker may legitimately wait for its continuation)
             acc.violation(f"C03:buffer-not-empty/{kind}", f"{len(obs['buffer'])} bytes left in the receive buffer", case)
     nt = bool(inside) or bool(garbage)
     acc.case((name, tuple(cuts), tuple(sorted(garbage.items()))) if nt else None, cls=[f"kind={kind}"],
